@@ -1,5 +1,6 @@
 (** * C08 - Filtering keeps exactly the confirmed tickets; ticket space stays consistent. *)
-From LP Require Import Proofs.Tactics Proofs.Loop Proofs.Resume Proofs.Filter Proofs.Examples.
+From LP Require Import Proofs.Tactics Proofs.Loop Proofs.Resume Proofs.Shuffle Proofs.Settle Proofs.Filter Proofs.ClaimLedger
+  Proofs.Partition Proofs.Examples.
 Open Scope N_scope.
 
 (** [l] is the allocation in order: the chain of non-empty batches from ticket 1 to the last ticket,
@@ -48,6 +49,31 @@ Theorem C08_compact_spec : forall l s f r,
 Proof. exact compact_spec. Qed.
 
 (** Non-vacuity: allocation 3 + 2, confirmed 2 + 2: ranges become 1-2 and 3-4, total 4. *)
+(** the same, as the tiling [Layout]: participant after participant, each range starts where the
+    previous one ends, starting at ticket 1 *)
+Theorem C08_layout : forall e b w w' l,
+  op (st w) = OpNone ->
+  Chain (st w) (last_ticket_id (st w)) 1 l -> Owned (st w) 1 l -> NoDup (map fst l) ->
+  Forall (fun x => confirmed (st w) (fst x) <= snd x /\ 0 < snd x) l ->
+  filter_tickets e b w = Ok (w', 0) ->
+  let A := map fst l in
+  Layout (range (st w')) (confirmed (st w')) 0 A /\ NoDup A /\
+  last_ticket_id (st w') = sumN (map (confirmed (st w')) A).
+Proof. exact filter_gives_layout. Qed.
+
+(** consequences of the tiling, for any marking of tickets: ranges pairwise disjoint and inside
+    1..total, a participant never holds more winning tickets than it confirmed, range size =
+    confirmed, and the participants' winning tickets add up to the winning tickets among 1..total *)
+Theorem C08_layout_facts : forall s A,
+  Layout (range s) (confirmed s) 0 A -> NoDup A ->
+  let total := sumN (map (confirmed s) A) in
+  ranges_disjoint s A /\
+  (forall a f la t, In a A -> range s a = Some (f, la) -> In t (range_ids f la) -> In t (range_ids 1 total)) /\
+  (forall a, In a A -> winning_of s a <= confirmed s a) /\
+  (forall a f la, In a A -> range s a = Some (f, la) -> N.of_nat (length (range_ids f la)) = confirmed s a) /\
+  sumN (map (winning_of s) A) = count_winning s (range_ids 1 total).
+Proof. exact layout_facts. Qed.
+
 Example C08_nonvacuous :
   let w := step_sha Base base_confirmed (mkenv 2 20 0 [], 50%nat, [], CFilter) in
   Chain (st base_confirmed) 5 1 [(2, 3); (3, 2)] /\
@@ -64,4 +90,6 @@ Qed.
 Print Assumptions C08_filter.
 Print Assumptions C08_schedule_independent.
 Print Assumptions C08_compact_spec.
+Print Assumptions C08_layout.
+Print Assumptions C08_layout_facts.
 Print Assumptions C08_nonvacuous.
